@@ -46,6 +46,8 @@ C03(r) ==
        \cup (IF acc # {} /\ ChainBroken(s, sub, acc) THEN {"C03.ChainStale"} ELSE {})
        \cup (IF ~MatchesStrict(s, sub) THEN {"C03.NotVerifying"} ELSE {})
        \cup (IF r.verify_after # "ok" /\ MatchesStrict(s, sub) THEN {"C03.FreshVerifyFails"} ELSE {})
+       \* a further edit + update + save on the same loader object, then a fresh verification
+       \cup (IF "same_loader" \in DOMAIN r /\ r.same_loader \notin {"", "ok"} THEN {"C03.SameLoaderRoundFails"} ELSE {})
 
 (* other logical names of the updated directory and of directories inside it (symlinked        *)
 (* directories): supplied by the harness from realpath                                        *)
@@ -92,8 +94,12 @@ C13(r) ==
        \cup (IF s0.top = <<"Manifest">> /\ s1.top # <<"Manifest">> THEN {"C13.TopCompressed"} ELSE {})
        \* a re-compressed Manifest keeps its logical name: every Manifest in use before is in use after,
        \* under its logical path with or without a compression suffix (its directory still existing)
+       \* (a Manifest lying under an IGNOREd path or in a hidden directory is dropped from the tree by
+       \* the update together with its MANIFEST entry: that is not a loss)
        \cup (IF \E x \in MfSet(s0) : x.reg /\ x.ok /\ Kind(s1, Dir(x.p)) = "dir"
-                   /\ ~\E m \in MfSet(s1) : m.reg /\ m.lp = x.lp
+                   /\ ~(\E q1 \in MfSet(s1) : q1.reg /\ q1.lp = x.lp)
+                   /\ ~(\E q2 \in MfSet(s1) : q2.reg /\ \E ie \in Ents(q2) : ie.tag = "IGNORE" /\ IsPfx(Full(q2, ie), x.p))
+                   /\ ~(\E hk \in 1..(Len(x.p) - 1) : HasNode(s1, SubSeq(x.p, 1, hk)) /\ NodeAt(s1, SubSeq(x.p, 1, hk)).h)
              THEN {"C13.LogicalManifestLost"} ELSE {})
        \cup (IF \E m \in wr : \E n \in MfSet(s1) :
                    /\ n.ok /\ n.p # m.p /\ n.lp = m.lp
